@@ -78,7 +78,93 @@ def run(run):
             lon, lat = clon + t * (vlon - clon), clat + t * (vlat - clat)
             reqs.append(f"lonlat_to_cell {geo.hx(lon)} {geo.hx(lat)} {res}")
             meta.append(("hug-edge", lon, lat, res))
+    # third family: EVERY vertex and edge midpoint of every cell of resolutions 2 and 3 (and of a sample of resolution 4), looked up at the
+    # cell's own resolution and one finer: exact tie points of the lattice, where the lookup runs deepest into its probe sequence
+    sweep = list(gen.all_cells(2)) + list(gen.all_cells(3))
+    r4 = list(gen.all_cells(4))
+    sweep += r4 if not quick else rng.sample(r4, 3000)
+    sb = core.impl_only(run, [f"cell_to_boundary {c} 0 2" for c in sweep])
+    seen_pts = set()
+    for c, b in zip(sweep, sb):
+        ring = geo.parse_ring(b)
+        if not ring:
+            continue
+        res = spec.decode(c)[0]
+        for (vlon, vlat) in ring:
+            if (vlon, vlat, res) in seen_pts:
+                continue
+            seen_pts.add((vlon, vlat, res))
+            reqs.append(f"lonlat_to_cell {geo.hx(vlon)} {geo.hx(vlat)} {res}")
+            meta.append(("lattice-point", vlon, vlat, res))
+            if rng.random() < 0.15:
+                reqs.append(f"lonlat_to_cell {geo.hx(vlon)} {geo.hx(vlat)} {res + 1}")
+                meta.append(("lattice-point", vlon, vlat, res + 1))
+    # fourth family: hard-case mining.  The harness itself draws 6*10^6 (quick) / 3*10^8 (thorough) uniform points (16 processes, ~7 us per
+    # lookup) and hands back only the lookups that ended in the fallback or needed >= 5 distinct estimates; those go through the model and
+    # the oracle like every other request.  A random point never reaches the fallback on the reference tree (only tie points do), so a
+    # change that sends a sliver of ordinary points there shows up here even when the sliver has measure 1e-7.
+    import subprocess
+    exe = core.harness(run, "release")
+    per = run.n(400000, 20000000) if quick else 20000000
+    import tempfile
+    tmpd = tempfile.mkdtemp(prefix="a5mine-")
+    procs = []
+    for k in range(16):
+        fo = open(f"{tmpd}/{k}.txt", "w")
+        procs.append((subprocess.Popen([exe, "mine", str(run.seed * 1000 + k), str(per), "2", "29", "5"], stdout=fo), fo))
+    fallbacks, hard, mhist = [], [], {}
+    for k, (pr, fo) in enumerate(procs):
+        pr.wait()
+        fo.close()
+        for line in open(f"{tmpd}/{k}.txt"):
+            line = line.rstrip("\n")
+            if line.startswith("F "):
+                fallbacks.append(line[2:])
+            elif line.startswith("H "):
+                hard.append(line[2:])
+            elif line.startswith("# branches"):
+                for tok in line.split()[2:]:
+                    k_, v_ = tok.rsplit(":", 1)
+                    mhist[k_] = mhist.get(k_, 0) + int(v_)
+    import shutil
+    shutil.rmtree(tmpd, ignore_errors=True)
+    run.extra["mined_points_drawn"] = 16 * per
+    run.extra["mined_branch_histogram"] = mhist
+    run.extra["mined_fallbacks"] = len(fallbacks)
+    run.extra["mined_hard_cases"] = len(hard)
+    # every lookup of a random point that ended in the fallback, and a sample of those that needed many estimates
+    mined = fallbacks[:20000] + (hard if len(hard) <= 6000 else rng.sample(hard, 6000))
+    for line in mined:
+        t = line.split()
+        reqs.append(line)
+        meta.append(("mined", geo.fx(t[1]), geo.fx(t[2]), int(t[3])))
+    n_dis0 = len(run.corr_disagreements)
     impl, model = core.both(run, reqs, "lonlat_to_cell")
+    # where implementation and model part ways, the property itself is examined around that input: 400 points at log-uniform
+    # distances (1e-9 .. 1 cell size) from each of the first disagreeing lookups, same resolution, judged by the same oracle
+    around = []
+    for d in run.corr_disagreements[n_dis0:]:
+        t = d["request"].split()
+        if t[0] != "lonlat_to_cell" or len(around) >= 12:
+            continue
+        lon0, lat0, r0 = geo.fx(t[1]), geo.fx(t[2]), int(t[3])
+        if not (lon0 == lon0 and lat0 == lat0) or abs(lat0) > 89.0 or not 0 <= r0 <= 29:
+            continue
+        around.append((lon0, lat0, r0))
+    for (lon0, lat0, r0) in around:
+        sz = math.degrees(cell_size(r0))
+        for _ in range(400):
+            rad = sz * 10 ** rng.uniform(-9, 0)
+            ang = rng.uniform(0, 2 * math.pi)
+            lon, lat = lon0 + rad * math.cos(ang) / max(0.02, math.cos(math.radians(lat0))), max(-90.0, min(90.0, lat0 + rad * math.sin(ang)))
+            reqs.append(f"lonlat_to_cell {geo.hx(lon)} {geo.hx(lat)} {r0}")
+            meta.append(("around-disagreement", lon, lat, r0))
+    if around:
+        more = core.impl_only(run, reqs[len(impl):])
+        mmore = core.run_driver(reqs[len(impl):])
+        impl = impl + more
+        model = model + mmore
+        run.extra["points_searched_around_disagreements"] = len(more)
     # oracle: the returned cell's reported boundary must contain the point (independent spherical winding test)
     breq, idx = [], []
     for i, ((kind, lon, lat, r), a) in enumerate(zip(meta, impl)):
@@ -142,7 +228,9 @@ def run(run):
             if not (r_.startswith("ok ") and geo.fx(r_.split()[1]) > 0):
                 run.violation("a longitude shifted by a multiple of 360 degrees gives a cell that does not contain the point", q, cid)
     run.rule = ("points: 30% uniform, 15% polar caps (to the pole itself), 30% on / within 1e-12..1e-3 degrees of edges and vertices of base cells and quintants (dodecahedron seams, vertices, quintant borders), "
-                "12% antimeridian, 13% longitudes wrapped by multiples of 360, plus points hugging vertices / edge midpoints of random cells from inside (1e-2..1e-6 relative) x random resolutions 0..29; "
+                "12% antimeridian, 13% longitudes wrapped by multiples of 360, plus points hugging vertices / edge midpoints of random cells from inside (1e-2..1e-6 relative) x random resolutions 0..29, plus every vertex and edge midpoint of every cell of resolutions 2, 3 (and 4: sample in the quick tier) at its own resolution; "
+                "plus hard-case mining: the harness draws 6.4e6 (quick) / 3.2e8 (thorough) uniform points x resolutions 2..29 and returns the lookups that ended in the fallback or needed >= 5 distinct estimates, which are then judged by model and oracle; "
+                "when implementation and model disagree on a lookup, 400 points at log-uniform distances around it are judged by the oracle (the search for a concrete failing input); "
                 "oracle = spherical winding test against the returned cell's own reported boundary (independent of contains_point), no verdict within 0.2% of a cell size of the ring; "
                 "non-trivial = distinct decided lookups that needed a probe or the fallback")
     run.samples = [{"request": reqs[i], "impl": impl[i], "model": model[i]} for i in rng.sample(range(len(reqs)), 6)]
